@@ -223,7 +223,7 @@ PROPS = {
         ],
     },
     "C07": {
-        "units": ["renew", "schedule", "issue", "http"],
+        "units": ["renew", "schedule", "issue", "http", "hooks"],
         "design_ref": "DESIGN.md section 5 C07",
         "technique": "Verus function contracts over ghost counters (requests, post-operation runs, time slept since the last request)",
         "text": "Deductive proof that one task step performs exactly one request and exactly one post-operation hook run, reports success iff "
